@@ -24,6 +24,7 @@ import (
 	"github.com/olive-io/bpmn/schema"
 	"github.com/olive-io/bpmn/v2/pkg/errors"
 	"github.com/olive-io/bpmn/v2/pkg/tracing"
+	"github.com/olive-io/bpmn/v2/pkg/verifhook"
 )
 
 type eventBasedGateway struct {
@@ -72,8 +73,10 @@ func (gw *eventBasedGateway) run(ctx context.Context, sender tracing.ISenderHand
 					},
 					sequenceFlows: sequences,
 					actionTransformer: func(sequenceFlowId *schema.IdRef, action IAction) IAction {
+						verifhook.Point("ebg.cas")
 						// only the first one is to flow
 						if atomic.CompareAndSwapInt32(&first, 0, 1) {
+							verifhook.Point("ebg.won")
 							gw.tracer.Send(DeterminationMadeTrace{Node: gw.element})
 							for terminationCandidateId, ch := range terminationChannels {
 								if sequenceFlowId != nil && terminationCandidateId != *sequenceFlowId {
